@@ -83,7 +83,7 @@ def run(ctx):
     # ------------------------------------------------------------------ rounding helpers
     for name, rnd in (("round_price_up", "ceil"), ("round_price_down", "floor")):
         f = helpers[name]
-        r = m.q(f).ret()
+        r = m.qi(f).ret()      # (a shared private clamp-and-cast tail is spliced in)
         ok = r[0] == "cast" and r[2][0] == "call" and r[2][4] == "clamp" and len(r[2][2]) == 3
         if ok:
             x, lo, hi = r[2][2]
